@@ -2,7 +2,7 @@
 PROPS = {}
 PROPS["C02"] = {
     "level": "exploration",
-    "rule": "one evaluation = one (extractor, required path, input bytes) fed to Extract the way the walk does it (file opened through the scan FS, Root set); non-trivial = Extract produced at least one package, returned an error or panicked (the input reached the extractor's parser/validator); distinct by (extractor, path, SHA-256 of the input bytes). Classes 'ext:<name>:<result>' are the per-extractor outcome table (ok_packages, ok_empty, error, error_with_packages, panic, overrun), 'mut:<op>' the mutator distribution, 'containment_scan' the number of real Scanner.Scan containment checks",
+    "rule": "one evaluation = one (extractor, required path, input bytes) fed to Extract the way the walk does it (file opened through the scan FS, Root set); non-trivial = Extract produced at least one package, returned an error or panicked (the input reached the extractor's parser/validator); distinct by (extractor, path, SHA-256 of the input bytes). Classes 'ext:<name>:<result>' are the per-extractor outcome table (ok_packages, ok_empty, error, error_with_packages, panic, overrun), 'mut:<op>' the mutator distribution, 'containment_scan' the number of real Scanner.Scan containment checks (each under one of the option sets ErrorOnFSErrors / StoreAbsolutePath / UseGitignore / PrintDurationAnalysis)",
     "assumptions": [
         "all 58 built-in filesystem extractors of list.All except java/pomxmlnet (needs network) are exercised; required paths come from probing FileRequired with production paths and the names under each extractor's testdata",
         "seeds: every fixture under the extractor's testdata up to 256 KiB (the first 256 KiB of larger ones), minus the fixture files emptied in this sandbox, plus a few tiny literal documents; inputs are capped at 256 KiB",
